@@ -481,11 +481,22 @@ def process_scratch(base=None):
     """One scratch directory per interpreter, created atomically with a unique name (a name built
     from the pid alone can collide with a dead interpreter of another check run whose coordinator
     has not swept yet - pids are recycled quickly on this machine)."""
-    import tempfile
+    import time
 
     base = base or fsseam.scratch_base()
     if base not in _process_scratch:
-        _process_scratch[base] = tempfile.mkdtemp(prefix="PVS", dir=base)
+        # digits only after the prefix: exclusion patterns of the generated worlds are matched
+        # against absolute paths, and a random letter sequence in the scratch name can match one
+        # of them ("kay", "pix", ...) - which silently empties every scan of that interpreter
+        n = 0
+        while True:
+            path = os.path.join(base, f"PVS{os.getpid()}_{time.time_ns()}_{n}")
+            try:
+                os.mkdir(path, 0o700)
+                break
+            except FileExistsError:
+                n += 1
+        _process_scratch[base] = path
     return _process_scratch[base]
 
 
